@@ -150,6 +150,8 @@ type Machine struct {
 	lastSnapDiff  string
 	panicMsg      string
 	kvConflicts    int
+	urlReg         map[*Term]*urlParts
+	urlOut         []urlOutRec
 	knownConds     map[string]bool
 	rescued        int
 	pendingCommits []pendingCommit
